@@ -73,7 +73,7 @@ def run_job(job):
         viol.append({"sig": "C19 " + sig, "what": "%s [%s build]: %s" % (su, fl, what)})
 
     with okv.Session(su, flavour=fl) as s:
-        n = 12 if tier == "quick" else 150
+        n = 12 if tier == "quick" else 600
         keys = special_keys(sz.ke, rnd, n)
         pks = {}
         for lab, sk in keys:
